@@ -155,7 +155,7 @@ func buildC08(tier string, seed int64) *Family {
 		add(t)
 	}
 	return &Family{
-		Instances: dedupInst(insts),
+		Instances: withValueReuse(dedupInst(insts), 2),
 		Canaries: []*vm.Instance{
 			valueCanary("9001 - 9002", "9002 - 9001", cfg),
 			valueCanary("floor(9001)", "ceiling(9001)", cfg),
